@@ -1,5 +1,6 @@
 import DmrVerif.Props.C14
 import DmrVerif.Lemmas.TranslMbxml
+import DmrVerif.Lemmas.TranslMbxmlW
 
 /-!
 # C14t — the SOURCE of the MBXML readers, translated, equals the model of C14
@@ -87,6 +88,87 @@ theorem transl_read_opaque_roundtrip (payload pre rest : Bytes) (hv : payload.le
     rw [← List.length_append]; exact List.drop_left' rfl
   rw [this, List.take_left' rfl]
 
+/-! ## the writers -/
+
+/-- `write_uintvar(value)`, every Python int: the model's `writeUInt` (both assertions; no `ValueError` of `int(s, 2)`, no
+`unsupported` of `math.ceil` / `int(s, 2)` is reachable) -/
+theorem write_uintvar_eq (v : Int) : write_uintvar v = ofR id (writeUInt v) :=
+  Transl.Mbxml.write_uintvar_eq v
+
+/-- `write_sintvar(value, negative_zero)`, every Python int and flag: the model's `writeS` -/
+theorem write_sintvar_eq (v : Int) (nz : Bool) : write_sintvar v nz = ofR id (writeS v nz) :=
+  Transl.Mbxml.write_sintvar_eq v nz
+
+/-- `write_fraction(dec_part, precision)` for natural arguments: the model's `writeFraction` (descending `range`, the septet
+list comprehension, the `while … pop()` loop with fuel `len(septets) + 1`, the flagged list) — it never raises -/
+theorem write_fraction_eq (d p : Nat) : write_fraction (d : Int) (p : Int) = .ok (writeFraction d p) :=
+  Transl.Mbxml.write_fraction_eq d p
+
+/-- the translated writer accepts exactly `0 ≤ v ≤ 2^32 − 1` (`C14.writeU_range`) -/
+theorem transl_write_uintvar_range (v : Int) :
+    (∃ bs, write_uintvar v = .ok bs) ↔ 0 ≤ v ∧ v ≤ 2 ^ 32 - 1 := by
+  rw [write_uintvar_eq]
+  unfold writeUInt
+  by_cases hv : v < 0
+  · rw [if_pos hv]
+    constructor
+    · intro ⟨_, h⟩; cases h
+    · intro ⟨h, _⟩; omega
+  · rw [if_neg hv]
+    have hr := C14.writeU_range v.toNat
+    constructor
+    · intro ⟨bs, h⟩
+      cases hw : writeU v.toNat with
+      | error e => rw [hw] at h; cases h
+      | ok b => have := hr.mp ⟨b, hw⟩; omega
+    · intro ⟨_, h2⟩
+      obtain ⟨b, hb⟩ := hr.mpr (by omega)
+      exact ⟨b, by rw [hb]; rfl⟩
+
+/-- ROUND TRIP PURELY BETWEEN TRANSLATED FUNCTIONS: what the translated `write_uintvar` returns for `0 ≤ v ≤ 2^32 − 1`,
+placed anywhere in a buffer, is read back by the translated `read_uintvar` as `v`, ending exactly behind it -/
+theorem transl_roundtrip_uintvar (v : Nat) (hv : v ≤ 2 ^ 32 - 1) (pre rest : Bytes) :
+    ∃ bs, write_uintvar (v : Int) = .ok bs ∧
+      read_uintvar (pre ++ bs ++ rest) (pre.length : Int) = .ok ((v : Int), ((pre.length + bs.length : Nat) : Int)) := by
+  obtain ⟨bs, hw, hr⟩ := transl_read_write_uintvar v hv pre rest
+  refine ⟨bs, ?_, hr⟩
+  rw [write_uintvar_eq]
+  unfold writeUInt
+  have : ¬ ((v : Int) < 0) := by omega
+  rw [if_neg this, Int.toNat_natCast, hw]; rfl
+
+/-- the same for the signed pair: `read_sintvar (write_sintvar v) = v` with the sign, for `|v| ≤ 2^31 − 1` -/
+theorem transl_roundtrip_sintvar (v : Int) (hv : v.natAbs ≤ 2 ^ 31 - 1) (pre rest : Bytes) :
+    ∃ bs, write_sintvar v = .ok bs ∧
+      read_sintvar (pre ++ bs ++ rest) (pre.length : Int) =
+        .ok (v, ((pre.length + bs.length : Nat) : Int), if v < 0 then -1 else 1) := by
+  obtain ⟨bs, hw, hr⟩ := transl_read_write_sintvar v hv pre rest
+  exact ⟨bs, by rw [write_sintvar_eq, hw]; rfl, hr⟩
+
+/-- canonical shortest form (`C14.writeU_canonical`, `writeU_shortest`) about the translated writer: its output is canonical,
+and no well-flagged octet string that the translated reader reads as the same value is shorter -/
+theorem transl_write_uintvar_canonical (v : Nat) (hv : v ≤ 2 ^ 32 - 1) :
+    ∃ bs, write_uintvar (v : Int) = .ok bs ∧ canonicalU bs = true ∧
+      ∀ other : Bytes, wellFlagged other = true →
+        read_uintvar other 0 = .ok ((v : Int), (other.length : Int)) → bs.length ≤ other.length := by
+  have hc := C14.constants.1
+  have hw : writeU v = .ok (writeURaw v) := by unfold writeU; rw [if_neg (by omega)]
+  refine ⟨writeURaw v, ?_, C14.writeU_canonical v, ?_⟩
+  · rw [write_uintvar_eq]
+    unfold writeUInt
+    have : ¬ ((v : Int) < 0) := by omega
+    rw [if_neg this, Int.toNat_natCast, hw]; rfl
+  · intro other hwf hread
+    obtain ⟨u, hru, hlen⟩ := C14.writeU_shortest other hwf
+    have h := read_uintvar_eq other 0
+    rw [hru] at h
+    have h' : read_uintvar other 0 = .ok ((u : Int), (other.length : Int)) := h
+    rw [h'] at hread
+    have : u = v := by
+      have := (Prod.mk.injEq _ _ _ _).mp (Except.ok.inj hread)
+      exact_mod_cast this.1
+    rw [← this]; exact hlen
+
 /-! ## non-vacuity: kernel evaluation of the translated definitions; expected values computed with the real code -/
 
 example :
@@ -96,5 +178,10 @@ example :
     read_opaque_defined_size d 10 5 = .ok ([0xbb, 0xcc], 15) ∧
     read_uintvar d (-1) = .ok (9733, 1) ∧ read_uintvar d (-13) = .error .index ∧ read_uintvar d (-4) = .ok (3, -3) ∧
     read_uintvar [0x80, 0x80] 0 = .error .index := by decide +kernel
+
+example : write_uintvar 4294967295 = .ok [0x8f, 0xff, 0xff, 0xff, 0x7f] ∧ write_uintvar 0 = .ok [0] ∧
+    write_uintvar 4294967296 = .error .assertion ∧ write_uintvar (-1) = .error .assertion ∧
+    write_sintvar (-129) = .ok [0xc1, 0x01] ∧ write_sintvar 64 = .ok [0x80, 0x40] ∧ write_sintvar 0 true = .ok [0x40] ∧
+    write_fraction 8192 3 = .ok [0x80, 0x40] ∧ write_fraction 0 3 = .ok [0] := by decide +kernel
 
 end Dmr.C14t
